@@ -159,7 +159,9 @@ func execTyped(ops []bOp, sparse bool) (text []string, oracle, sig string, cells
 			}
 			for j := range before {
 				if !bytes.Equal(before[j], snap[j]) {
-					fail(rng, "modified blob %d (%v -> %v) although its arguments are out of range", j, before[j], snap[j])
+					// (in the sparse mode this is the first look at the contents since earlier writes: a Go-side copy gone
+					// stale through an alias shows here too and is told apart by the blob's JS array)
+					failBlob(rng, j, snap[j], before[j], "modified blob %d (%v -> %v) although its arguments are out of range", j, before[j], snap[j])
 					break
 				}
 			}
